@@ -33,7 +33,7 @@ R == MapT(<<S("str", "n"), S("str", "k"), S("str", "z")>>, <<Sc("int", "2"), Val
 lhs == TabOf(L)
 doc == TabOf(R)
 At == <<Seg("KEY", "t")>>
-Base(h, a, o, s) == [hashes |-> h, arrays |-> a, aoh |-> o, sets |-> s, idkey |-> "", amode |-> "stop", rules |-> <<>>, keys |-> <<>>, lvl |-> 0, rootrule |-> ""]
+Base(h, a, o, s) == [hashes |-> h, arrays |-> a, aoh |-> o, sets |-> s, idkey |-> "", amode |-> "stop", rules |-> <<>>, keys |-> <<>>, at |-> <<>>, rootrule |-> ""]
 Bases == {Base("deep", "all", "all", "unique"), Base("left", "left", "left", "left"), Base("right", "right", "right", "right"),
           Base("deep", "unique", "deep", "unique")}
 RVal(k) == ValOf(R, S("str", k))
